@@ -1,3 +1,4 @@
+import Martian.Props.C15.Wire
 import Martian.Lemmas.MessageView
 /-!
 C15 — Logging and snapshotting never change the message that is forwarded.
